@@ -23,7 +23,7 @@ for s, letter in (('A', la), ('B', lb)):
     # RUN.txt must be runnable with `bash -e`: prose lines become comments
     runp = d + '/RUN.txt'
     if os.path.exists(runp):
-        cmds = ('export ', 'cp ', 'go ', 'rm ', 'git ', 'mkdir ', 'python3 ', 'bash ', 'cd ', 'javac ', 'java ', 'sh ', './', 'test ', 'mv ', 'cat ', 'GOFLAGS', 'for ', 'done', 'if ', 'fi', 'then', 'else')
+        cmds = ('export ', 'cp ', 'go ', 'rm ', 'git ', 'mkdir ', 'python3 ', 'bash ', 'cd ', 'javac ', 'java ', 'sh ', './', 'test ', 'mv ', 'cat ', 'GOFLAGS', 'for ', 'done', 'if ', 'fi', 'then', 'else', 'status=', 'exit ', 'SEED_TMP=', 'TMPDIR=')
         out = []
         for line in open(runp).read().split('\n'):
             st = line.strip()
